@@ -191,26 +191,32 @@ fn quats(d: &mut Drv) {
     d.call("from_to", || ft("mat4r"), || em(&rm::Mat4::<Q>::rotation_from_to_3d(v3(&f), v3(&t))));
     d.call("from_to", || ft("mat4c"), || em(&cm::Mat4::<Q>::rotation_from_to_3d(v3(&f), v3(&t))));
     // angle-axis extraction of rotation_3d(token angle, axis): must describe the same rotation
-    let (_b, _k, ang) = token(d, true);
+    // half angles beyond a quarter turn (w < 0) are as frequent as the others
+    let ang = if d.pick(2) == 0 { let s = [-1i64, 1][d.pick(2)]; Q::angle(0, 6 * s) } else { token(d, true).2 };
     let (ax, _len) = pyth3(&mut d.rng);
     let rq = Quaternion::rotation_3d(ang, v3(&ax));
     d.call("angle_axis", || json!({"q": eq_(&rq)}), || {
         let (a, axis) = rq.into_angle_axis();
-        let (tb, tk) = token_of(a);
-        json!({"b": tb, "k": tk, "axis": evs(&[axis.x, axis.y, axis.z])})
+        json!({"ang": token_of(a), "axis": evs(&[axis.x, axis.y, axis.z])})
     });
     let idq = Quaternion::<Q>::identity();
-    d.call("angle_axis", || json!({"q": eq_(&idq)}), || { let (a, axis) = idq.into_angle_axis(); let (tb, tk) = token_of(a); json!({"b": tb, "k": tk, "axis": evs(&[axis.x, axis.y, axis.z])}) });
+    d.call("angle_axis", || json!({"q": eq_(&idq)}), || { let (a, axis) = idq.into_angle_axis(); json!({"ang": token_of(a), "axis": evs(&[axis.x, axis.y, axis.z])}) });
 }
-/// an angle value as (base, multiple): base 0 = quarter turns, 1..4 = the Pythagorean tokens
-fn token_of(a: Q) -> (i64, i64) {
-    use crate::q::Unit;
-    if a.n == 0 { return (0, 0); }
-    match a.u {
-        Unit::Phi(b) if a.d == 1 => (b as i64 + 1, a.n as i64),
-        Unit::Pi if 2 % a.d == 0 => (0, (a.n * (2 / a.d)) as i64),
-        _ => crate::q::inconclusive("angle result is not a token"),
+/// an angle value as a list of tokens [base, multiple]: base 0 = quarter turns, 1..4 = the Pythagorean angles
+fn token_of(a: Q) -> Value {
+    let c = match a.combo() { Some(c) => c, None => crate::q::inconclusive("angle result is a plain number") };
+    let mut out = vec![];
+    if c[0].0 != 0 {
+        if 2 % c[0].1 != 0 { crate::q::inconclusive("angle is not a multiple of a quarter turn") }
+        out.push(json!([0, (c[0].0 * (2 / c[0].1)) as i64]));
     }
+    for b in 0..4 {
+        if c[1 + b].0 != 0 {
+            if c[1 + b].1 != 1 { crate::q::inconclusive("fractional multiple of a token angle") }
+            out.push(json!([b as i64 + 1, c[1 + b].0 as i64]));
+        }
+    }
+    Value::Array(out)
 }
 
 pub fn drive_quat(args: &[String]) {
